@@ -1,4 +1,4 @@
-SPECIFICATION FairSpec
+SPECIFICATION Spec
 CONSTANTS
   NP = 2
   Vals <- ValsQuick
@@ -20,4 +20,3 @@ INVARIANT TypeOK
 INVARIANT PropsOK
 INVARIANT StoredOnTrue
 INVARIANT NoHang
-PROPERTY Termination
